@@ -46,6 +46,11 @@ def cases(tier, seed, args):
                             L=[int(rng.integers(1, 3))] * int(rng.integers(0, 2)), K=int(rng.integers(2, 4)),
                             D=int(rng.integers(2, 5)), N=int(rng.integers(8, 20)), seed=int(rng.integers(1 << 30)),
                             decades=int([100, 20, 0][(i // 8) % 3])))
+        # unit-norm samples of which a few keep their level (gain 1, -1, j) while the others are rescaled
+        for i in range(8 if q else 48):
+            out.append(dict(t='gain_dist', dist=['watson', 'cacg', 'bingham', 'vmf'][i % 4], fn=['log_pdf', 'fit'][(i // 4) % 2],
+                            L=[[], [2]][(i // 2) % 2], K=int(rng.integers(2, 4)), D=int(rng.integers(2, 5)), N=int(rng.integers(8, 20)),
+                            seed=int(rng.integers(1 << 30)), decades=[3, 20][i % 2], unit_some=True))
     if prop == 'C05':
         for i in range(42 if q else 420):
             kind = ml.KINDS[i % 7]
@@ -174,6 +179,21 @@ def cases(tier, seed, args):
             out.append(dict(t='stack_mm', kind=['cwmm', 'vmfmm', 'cwmm'][i % 3], L=[[3, 3], [9], [2, 5]][i % 3], K=2, D=3, N=int(rng.integers(12, 20)),
                             iterations=1 + i % 2, seed=2 * int(rng.integers(1 << 29)), covariance_type='full', singleton_init=False,
                             degenerate_slice=False, covariance_norm='eigenvalue', rank_deficient=False, saliency=bool(i % 2)))
+        # one slice whose observations are almost (1e-6) of unit norm next to slices on other levels
+        for i in range(6 if q else 24):
+            out.append(dict(t='stack_dist', dist=['watson', 'vmf', 'watson', 'bingham', 'cacg', 'watson'][i % 6], fn=['log_pdf', 'fit'][i % 2], L=[[2], [3], [2, 2]][i % 3],
+                            D=int(rng.integers(2, 4)), N=int(rng.integers(8, 16)), seed=2 * int(rng.integers(1 << 29)), saliency=False,
+                            degenerate_slice=False, near_unit=True, layout='C'))
+        for i in range(3 if q else 12):
+            out.append(dict(t='stack_mm', kind=['cwmm', 'vmfmm', 'cacgmm'][i % 3], L=[[2], [3]][i % 2], K=2, D=3, N=int(rng.integers(12, 20)),
+                            iterations=1 + i % 2, seed=2 * int(rng.integers(1 << 29)), covariance_type='full', singleton_init=False,
+                            degenerate_slice=False, covariance_norm='eigenvalue', rank_deficient=False, saliency=False, near_unit=True))
+        # the per-slice tying written with a non-negative axis index (the positive counterpart of -1), one to three leading axes
+        for i in range(6 if q else 24):
+            out.append(dict(t='stack_mm', kind=['cacgmm', 'cwmm', 'gmm', 'cacgmm', 'vmfmm', 'cbmm'][i % 6], L=[[2, 3], [3], [2, 2], [2, 2, 2]][i % 4], K=2 + i % 2, D=3,
+                            N=int(rng.integers(10, 16)), iterations=1 + i % 2, seed=2 * int(rng.integers(1 << 29)), covariance_type='full',
+                            singleton_init=False, degenerate_slice=False, covariance_norm='eigenvalue', rank_deficient=False, saliency=bool(i % 2),
+                            wca_pos=['tuple', 'list', 'int'][i % 3]))
         # cACG fixed-point iteration: every normalisation x several iteration counts on stacks of different slices
         for i in range(6 if q else 36):
             out.append(dict(t='stack_dist', dist='cacg', fn=['fit', 'log_pdf'][i % 2], L=[[2], [3], [2, 2]][(i // 2) % 3],
@@ -330,6 +350,13 @@ def _gain_dist(case):
         y = ml.unit(y)
     c = _gains(rng, (*L, N, 1), case['decades'], real_positive=real)
     fp = f't=gain_dist;dist={dist};fn={case["fn"]}'
+    if case.get('unit_some'):
+        y = ml.unit(y)
+        c[..., 0, :] = 1.0
+        if not real:
+            c[..., 1, :] = -1.0
+            c[..., 2, :] = 1j
+        fp += ';unit_some'
     key = f'gaind:{case["seed"]}'
     if case['fn'] == 'log_pdf':
         obj = _dist(dist, rng, L, K, D)
@@ -484,6 +511,9 @@ def _stack_mm(case):
             proto = rng.normal(size=(K, D)) + (0 if real else 1j * rng.normal(size=(K, D)))
             labm = rng.integers(0, K, size=N)
             data['y'][ix] = proto[labm] + [0.6, 0.9][j % 2] * (rng.normal(size=(N, D)) + (0 if real else 1j * rng.normal(size=(N, D))))
+    if case.get('near_unit'):
+        f0 = tuple(0 for _ in L)
+        data['y'][f0] = ml.unit(data['y'][f0]) * (1.0 + 1e-6 * rng.uniform(-1, 1, size=(N, 1)))
     if case.get('zero_obs') and kind == 'cacgmm':
         data['y'][tuple(0 for _ in L)][1] = 0            # one all-zero observation in one slice
     if case.get('outlier_slice'):
@@ -504,9 +534,16 @@ def _stack_mm(case):
         # calls below get plain C-ordered slices
         data_s = {k: np.asfortranarray(v) for k, v in data.items()}
         init_arg = np.asfortranarray(init_arg)
-    ms, es = _cfit(kind, data_s, init_arg, case['iterations'], dict(opts, **({'saliency': sal} if sal is not None else {})))
+    opts_s = dict(opts)
+    if case.get('wca_pos'):
+        ax_s, ax_1 = len(L) + 1, 1
+        mk = {'tuple': lambda a: (a,), 'list': lambda a: [a], 'int': lambda a: a}[case['wca_pos']]
+        opts_s['weight_constant_axis'] = mk(ax_s)
+        opts = dict(opts, weight_constant_axis=mk(ax_1))
+    ms, es = _cfit(kind, data_s, init_arg, case['iterations'], dict(opts_s, **({'saliency': sal} if sal is not None else {})))
     fp = f't=stack_mm;model={kind};lead={len(L)};cov={case["covariance_type"] if kind == "gmm" else ""};' \
-         f'singleton_init={bool(case.get("singleton_init"))};layout={"F" if data_s is not data else "C"};sal={sal is not None}'
+         f'singleton_init={bool(case.get("singleton_init"))};layout={"F" if data_s is not data else "C"};sal={sal is not None}' \
+         + (f';wca_pos={case["wca_pos"]}' if case.get('wca_pos') else '')
     recs = []
     ps = None
     if ms is not None:
@@ -558,6 +595,9 @@ def _stack_dist(case):
         # nearly (not exactly) tied slices: every slice is the first one moved by 1e-4 relative
         base = y[tuple(0 for _ in L)].copy()
         y = base + 1e-4 * y
+    if case.get('near_unit'):
+        f0 = tuple(0 for _ in L)
+        y[f0] = ml.unit(y[f0] + 3.0 * y[f0][:1]) * (1.0 + 1e-6 * rng.uniform(-1, 1, size=(N, 1)))
     sal = rng.uniform(0.2, 2, size=(*L, N)) if case['saliency'] and dist != 'cacg' else None
     tr = dict(gauss_full=lambda: GaussianTrainer(), gauss_diagonal=lambda: GaussianTrainer(), gauss_spherical=lambda: GaussianTrainer(),
               cgauss=lambda: ComplexCircularSymmetricGaussianTrainer(), vmf=lambda: VonMisesFisherTrainer(),
@@ -593,6 +633,9 @@ def _stack_dist(case):
     ls = None
     if case['fn'] == 'log_pdf' and ms is not None:
         yq = rng.normal(size=(*L, 5, D)) + (0 if real else 1j * rng.normal(size=(*L, 5, D)))
+        if case.get('near_unit'):
+            f0 = tuple(0 for _ in L)
+            yq[f0] = ml.unit(yq[f0]) * (1.0 + 1e-6 * rng.uniform(-1, 1, size=(5, 1)))
         ls, el = call(ms.log_pdf, np.asfortranarray(yq) if lay == 'F' else yq)
     idxs = list(np.ndindex(*L))
     rng.shuffle(idxs)
